@@ -2,7 +2,8 @@
 From Coq Require Import Strings.String Strings.Byte.
 From Coq Require Import List Arith NArith ZArith Bool.
 From PV Require Import Base.Bytes Base.Outcome Base.KV Compkey.Model Aol.Model Aol.Spec Aol.Inv.
-From PV Require Import Chain.Model Chain.Run Chain.AolProps Chain.Example.
+From PV Require Import Chain.Model Chain.Run Chain.AolProps Chain.Example Chain.SchemaProps.
+From PV Require Generated.GenApp.
 Import ListNotations.
 
 (** a record is appended only if the named writer is, at that moment, in the topic's writer list *)
@@ -86,3 +87,9 @@ Example C02_nonvacuous :
     [[ROk []; ROk [0%N]]; [RMsg 0 (b "aol") 9; ROk [1%N]; ROk []; RMsg 0 (b "aol") 9]] /\
   has_key (c_aol toy_final) (WriterKey (b "A") (b "t") (b "W")) = false.
 Proof. vm_compute. split; reflexivity. Qed.
+
+(** source tie (T1): the decorators of app/ante.go, in order, are the ones the model's [ante] abstracts (fee deduction
+    from the payer, signature verification for the required signers, sequence increment) *)
+Theorem C02_ante_chain_as_modelled : GenApp.ante_decorators = modelled_ante_chain.
+Proof. exact ante_chain_as_modelled. Qed.
+Print Assumptions C02_ante_chain_as_modelled.
